@@ -78,7 +78,16 @@ fn run(c: &[i64]) -> Vec<i64> {
     };
     let rt = tokio::runtime::Builder::new_current_thread().enable_all().build().unwrap();
     let mut bus = Bus::new(&iface);
-    let mut auth = { let _g = rt.enter(); NetworkAuthority::new(cfg) };
+    bus.set_forward(false);
+    // the three handles Runtime::schedule_net_service works with: the instance (setup, recv, teardown),
+    // a clone for the tick task and a clone for the command task, sharing the driver contexts
+    let (mut auth, mut auth_tick, mut auth_cmd) = {
+        let _g = rt.enter();
+        let a = NetworkAuthority::new(cfg);
+        let t = a.clone();
+        let c = a.clone();
+        (a, t, c)
+    };
     let (signal_tx, mut signal_rx) = broadcast::channel::<Object>(4096);
     let mut out: Vec<i64> = Vec::new();
     let mut n = 0i64;
@@ -92,17 +101,17 @@ fn run(c: &[i64]) -> Vec<i64> {
                     let _ = tokio::time::timeout(std::time::Duration::from_millis(300), auth.recv(signal_tx.clone())).await;
                     i += 11;
                 }
-                2 => { auth.on_tick(signal_tx.clone()).await; i += 1; }
-                3 => { let (m, used) = dec_motion(&c[i + 1..]).unwrap(); auth.on_command(&Object::Motion(m)).await; i += 1 + used; }
+                2 => { auth_tick.on_tick(signal_tx.clone()).await; i += 1; }
+                3 => { let (m, used) = dec_motion(&c[i + 1..]).unwrap(); auth_cmd.on_command(&Object::Motion(m)).await; i += 1 + used; }
                 8 => {
                     // the command is accepted but every socket write fails
                     let (m, used) = dec_motion(&c[i + 1..]).unwrap();
                     bus.fail_sends();
-                    auth.on_command(&Object::Motion(m)).await;
+                    auth_cmd.on_command(&Object::Motion(m)).await;
                     bus.unfail_sends();
                     i += 1 + used;
                 }
-                7 => { auth.on_command(&other_object(c[i + 1])).await; i += 2; }
+                7 => { auth_cmd.on_command(&other_object(c[i + 1])).await; i += 2; }
                 4 => { tokio::time::sleep(std::time::Duration::from_millis(c[i + 1] as u64)).await; i += 2; }
                 5 => { auth.setup().await; i += 1; }
                 6 => { auth.teardown().await; i += 1; }
